@@ -957,6 +957,13 @@ class BlockwiseRequest(BaseUnicastRequest, interfaces.Request):
                 block1.size_exponent,
             )
 
+            if current_block1.opt.block1 is None:
+                # The request went out in one piece, and the server still
+                # commented on block sizes (typically a 4.13 with a size
+                # hint, RFC 7959 Section 2.9.3). There is nothing to
+                # continue; the response is the result.
+                break
+
             if block1.block_number != current_block1.opt.block1.block_number:
                 raise error.UnexpectedBlock1Option("Block number mismatch")
 
